@@ -258,6 +258,11 @@ class Balancer:
         if len(t.args) < 2:
             log.debug("can't do anything with an unop bool")
             return None
+        if t.op in ("And", "Or"):
+            # what could be learned from a connective has been unpacked already; it is not a comparison whose sides
+            # could be swapped or balanced
+            log.debug("can't do anything with a connective")
+            return False
         if t.args[0].cardinality > 1 and t.args[1].cardinality > 1:
             log.debug("can't do anything because we have multiple multivalued guys")
             return False
